@@ -160,6 +160,10 @@ func (ic instrCompiler) ProcessMkContInstr(m ir.MkCont) {
 
 // ProcessClearRegInstr compiles a ClearReg instruction.
 func (ic instrCompiler) ProcessClearRegInstr(i ir.ClearReg) {
+	if !ic.registers[i.Dst].IsCell {
+		// Only cells need to be renewed
+		return
+	}
 	opcode := code.Clear(ic.codeReg(i.Dst))
 	ic.Emit(opcode)
 }
